@@ -145,6 +145,39 @@ theorem limit_parsing_only_filters (line : List UInt8) :
     simp only [Bool.true_and, Bool.false_and, Bool.false_eq_true, if_false, Option.filter]
     by_cases hd : (bytes.headD 0).toNat / 8 = 17 <;> simp [hd]
 
+/-- **what `parse_line` hands on is never empty** — the all-zero test rejects the empty payload too (`*;`), and that is the only thing that
+makes the `bytes[0]` of the `--limit-parsing` filter safe. The model writes that index as `headD 0`; with this theorem the default is never
+used, so the totalised definition does not hide a panic (seed C16_f narrowed the test to non-empty payloads and `*;` crashed the client). -/
+theorem parse_line_nonempty (line : List UInt8) (bytes : List UInt8) (h : parseLine line = some bytes) : bytes ≠ [] := by
+  unfold parseLine at h
+  cases hh : hexPart line with
+  | none => rw [hh] at h; cases h
+  | some hx =>
+    rw [hh] at h
+    simp only [Option.bind_eq_bind, Option.bind_some] at h
+    cases hd : hexDecode hx with
+    | none => rw [hd] at h; cases h
+    | some bs =>
+      rw [hd] at h
+      simp only [Option.bind_some] at h
+      intro he
+      by_cases hz : bs.all (· == 0) = true
+      · rw [if_pos hz] at h; cases h
+      · rw [if_neg hz] at h
+        cases h
+        rw [he] at hz
+        simp at hz
+
+/-- the index of the `--limit-parsing` filter is in bounds for every line that reaches it -/
+theorem limit_filter_index_in_bounds (line : List UInt8) (bytes : List UInt8) (h : parseLine line = some bytes) : 0 < bytes.length := by
+  have := parse_line_nonempty line bytes h
+  cases bytes with
+  | nil => exact absurd rfl this
+  | cons b bs => simp
+
+/-- non-vacuity: `*8d;` is handed on; `*;` and the all-zero payload `*0000;` are not (bytes: `*` 42, `8` 56, `d` 100, `0` 48, `;` 59, newline 10) -/
+example : parseLine [42, 56, 100, 59, 10] = some [0x8d] ∧ parseLine [42, 59, 10] = none ∧ parseLine [42, 48, 48, 48, 48, 59, 10] = none := by decide
+
 /-- over a whole connection: the frames radar decodes are the complete lines of the stream, parsed and filtered, once and in order -/
 theorem radar_stream (limit : Bool) (evs : List Ev) (h : live evs) :
     (clientRun (radarProcess limit) evs).outs = (splitLines (streamOf evs)).1.map (radarProcess limit) :=
